@@ -247,6 +247,28 @@ ADDED = {
     "C19": "Also: each layout is rounded with its own alignment and those two layouts are the ones compared.",
 }
 
+# deciding methods added in the robustness round: appended to `technique`
+TECH = {
+    "C01": "; ImplicitConversion::apply read on a finite type-registry model",
+    "C02": "; trampoline decision and trampoline body read as tables over all parameter lists of length <= 3",
+    "C03": "; ImplicitConversion::find read on a finite type-registry model (value categories, modifiers, lvalue destinations); swizzle value category over all slot sequences <= 4",
+    "C05": "; reported entry-point names read as a table over ShaderStage; MIR dominance of the api_slot guard",
+    "C06": "; Module::assign_api_bindings read on model modules (480 evaluations) against the allocation rule",
+    "C07": "; NameMap::build and assign_api_bindings read on model modules with hash containers walked forwards and backwards",
+    "C08": "; diagnostic source-line rendering read on files with multi-byte lines; admitted-kinds contradiction rule",
+    "C10": "; SourceManager location decoders read on a three-file model",
+    "C11": "; ConditionChain operations read on concrete chains, #if leaf parser and result test read as tables, condition pushes read as truth tables",
+    "C12": "; Macro::parse read on eleven #define lines; value-origin trace of the include cache key",
+    "C13": "; evaluate_cast and the literal folding of ImplicitConversion::apply read as complete tables on sample values against reference conversions",
+    "C14": "; SourceManager read on a three-file model; Macro::parse adjacency table; trivia-kind inventory with positive control",
+    "C15": "; NameMap::build read on four model modules (uniqueness, reserved words, verbatim names, locals vs generated names, both hash orders)",
+    "C16": "; find / get_rank read on a finite type-registry model; the numeric-rank tournament read on all 819 ordered candidate lists of length <= 3",
+    "C17": "; selection-loop skip condition read as a table; exporter reads of module.pipelines",
+    "C18": "; per-Target reachability with constant propagation on MIR; sibling agreement of analyse_bindings",
+    "C19": "; check_layout / get_type_layout read on model modules against the packing rules",
+    "C04": "; NameMap::build model rules under this property",
+}
+
 NOT_YET = "rules for this property are not built yet in this round (see DESIGN.md §10 build order); no claim is made"
 
 
@@ -260,6 +282,8 @@ def main():
             tech, text, note, ref = CLAIMS[pid]
             if pid in ADDED:
                 text = text + " " + ADDED[pid]
+            if pid in TECH:
+                tech = tech + TECH[pid] + " (finite-map reader over the type-checked tree; nothing is compiled or run)"
             checks.append({
                 "property_id": pid,
                 "quick_cmd": "bin/check %s" % pid,
@@ -295,7 +319,7 @@ def main():
         "not_applicable": na,
         "notes": "Technique family: static analysis only. Every check re-extracts facts from /repo's current working tree. "
                  "known_findings.json lists genuine defects by exact rule-instance key and the repaired ones (10 fix: commits in /repo). "
-                 "seeded/ holds 38 independently produced breaking changes with the checks that report them (seeded/MATRIX.md); the thorough tier replays them.",
+                 "seeded/ holds 38 independently produced breaking changes with the checks that report them (seeded/MATRIX.md); the thorough tier replays them. benign/ holds 90 independently produced behaviour-preserving refactorings on which no check may alarm (bin/trybenign).",
     }
     with open(os.path.join(VERIF, "MANIFEST.json"), "w") as f:
         json.dump(man, f, indent=1)
